@@ -1045,6 +1045,23 @@ theorem trans_C04_counted_until_issue_plus_lease_v2 (r : T_v2_sharedResource_gra
   · simp only [hc, if_false]
     omega
 
+/-- ... which is the machine's `ret` label for a granted call: dropped iff the lease has already run out when the answer
+arrives, else counted with a timer at issue time + lease (`afterGrant`) -/
+theorem trans_C04_grant_is_ret (r : T_v2_sharedResource_grant) (s : LSt) (cl : LCall) (hl : 0 < s.lease)
+    (hi : cl.issuedAt ≤ s.now) (e : Nat) (he : e = s.now - cl.issuedAt) :
+    ((v2_sr_grant r cl.issuedAt s.lease e).2.2.2 = true ↔ ¬ (cl.issuedAt + s.lease ≤ s.now)) ∧
+    ((v2_sr_grant r cl.issuedAt s.lease e).2.2.2 = true →
+      (s.now : Int) + (v2_sr_grant r cl.issuedAt s.lease e).2.2.1 = ((cl.issuedAt + s.lease : Nat) : Int)) := by
+  rw [trans_C04_C09_grant_v2]
+  by_cases hc : s.lease = 0 ∨ s.lease ≤ e
+  · simp only [hc, if_true]
+    refine ⟨⟨fun h => by simp at h, fun h => ?_⟩, fun h => by simp at h⟩
+    rcases hc with h0 | h1
+    · omega
+    · exfalso; apply h; omega
+  · simp only [hc, if_false]
+    refine ⟨⟨fun _ => by omega, fun _ => trivial⟩, fun _ => by omega⟩
+
 /-! ### non-vacuity: the translated functions on concrete values (also a readable trace of what they compute) -/
 
 example : v2_incTarget ⟨7⟩ 5 = ⟨12⟩ ∧ v2_incTarget ⟨7⟩ (-5) = ⟨2⟩ ∧ v2_incTarget ⟨7⟩ (-9) = ⟨0⟩ ∧ v2_incTarget ⟨7⟩ 0 = ⟨7⟩ := by decide
